@@ -78,6 +78,12 @@ var props = map[string]propCfg{
 		Quick:    tierCfg{8, 20},
 		Thorough: tierCfg{16, 600},
 	},
+	"C13": {
+		Harness:  "./harness/c13",
+		Specs:    cacheSpecs(),
+		Quick:    tierCfg{8, 20},
+		Thorough: tierCfg{16, 600},
+	},
 	"C10": {
 		Harness:  "./harness/c10",
 		Specs:    []rewrite.PkgSpec{{Dir: repo("par"), Subst: substSync, GoStmts: true}},
@@ -318,7 +324,7 @@ func realMain() int {
 	}
 
 	// known findings
-	var known []knownEntry
+	var known, fixed []knownEntry
 	if data, err := os.ReadFile(filepath.Join(verifRoot, "known_findings.json")); err == nil {
 		var all []knownEntry
 		if err := json.Unmarshal(data, &all); err != nil {
@@ -328,6 +334,9 @@ func realMain() int {
 		for _, k := range all {
 			if k.Property == id && k.Status == "known" {
 				known = append(known, k)
+			}
+			if k.Property == id && k.Status == "fixed" {
+				fixed = append(fixed, k)
 			}
 		}
 	}
@@ -360,11 +369,30 @@ func realMain() int {
 		}
 	}
 
+	// repaired defects stay repaired: their committed plans are replayed and a
+	// recurrence is reported like any other violation (a fixed entry suppresses nothing)
+	var regress []simcheck.ViolationRecord
+	for _, k := range fixed {
+		if k.Replay == "" {
+			continue
+		}
+		rp := filepath.Join(verifRoot, k.Replay)
+		r, problem := runWorker(2000, "VERIF_REPLAY="+rp)
+		if problem != "" || r == nil || r.Replay == nil {
+			inconclusive(id, "regression plan of fixed finding %s could not be replayed: %s", k.Key, problem)
+			return 2
+		}
+		if r.Replay.Class != "" {
+			regress = append(regress, simcheck.ViolationRecord{Class: r.Replay.Class, Detail: "fixed finding " + k.Key + " is back: " + r.Replay.Detail, Replay: rp})
+		}
+	}
+
 	// merge
 	hashes := map[uint64]struct{}{}
 	counters := map[string]int64{}
 	knownHits := map[string]int64{}
-	var evals, nontrivial, steps, simNs int64
+	var evals, nontrivial, steps int64
+	var simS float64
 	var samples []json.RawMessage
 	var viol []simcheck.ViolationRecord
 	var incs []string
@@ -383,7 +411,7 @@ func realMain() int {
 		evals += r.Evaluations
 		nontrivial += r.Nontrivial
 		steps += r.Steps
-		simNs += r.SimTimeNs
+		simS += r.SimTimeS
 		wseeds = append(wseeds, r.WorkerSeed)
 		for k, v := range r.Counters {
 			counters[k] += v
@@ -413,6 +441,7 @@ func realMain() int {
 			os.WriteFile(filepath.Join(*resultDir, fmt.Sprintf("worker-%d.json", w)), data, 0o644)
 		}
 	}
+	viol = append(viol, regress...)
 	wall := time.Since(start).Seconds()
 	searchS := wall - buildS
 	if searchS <= 0 {
@@ -458,7 +487,7 @@ func realMain() int {
 			"workers":                 tc.Workers,
 			"worker_seeds":            wseeds,
 			"scheduler_decisions":     steps,
-			"simulated_time_s":        float64(simNs) / 1e9,
+			"simulated_time_s":        simS,
 			"runs_per_hour":           float64(evals) / searchS * 3600,
 			"seeds_per_hour":          float64(tc.Workers) / searchS * 3600,
 			"counters":                counters,
@@ -485,7 +514,7 @@ func realMain() int {
 		return 2
 	}
 	fmt.Printf("summary property=%s tier=%s plans=%d distinct_nontrivial=%d decisions=%d sim_time=%.1fs wall=%.1fs (build %.1fs) violations=%d inconclusive=%d\n",
-		id, *tier, evals, len(hashes), steps, float64(simNs)/1e9, wall, buildS, len(viol), len(incs))
+		id, *tier, evals, len(hashes), steps, simS, wall, buildS, len(viol), len(incs))
 	if len(viol) > 0 {
 		return 1
 	}
